@@ -44,9 +44,9 @@ Proof.
   exists (record_obs b d1 d2). split.
   - rewrite <- (record_obs_unrooted_eq_mc b d1 d2 (mct_wf b Wb) (dest_text_ok_wf d1 W1)).
     unfold c07_model. cbn [c_base c_unrooted c_ref1 c_ref2 c_as_url1 c_as_url2].
-    rewrite (base_round_trip_mc b Wb), (dest_round_trip d1 W1).
+    rewrite (base_round_trip_mc b Wb), (dest_round_trip d1 W1), (dest_round_trip d2 W2).
     rewrite (navigate_normal_form _ _ d1 f1 (dest_round_trip d1 W1) eq_refl).
-    rewrite (navigate_normal_form _ _ d2 f2 (dest_round_trip d2 W2) eq_refl). reflexivity.
+    rewrite (navigate_normal_form _ _ d2 f2 (dest_round_trip d2 W2) eq_refl). destruct f1, f2; reflexivity.
   - apply mixed_case_observation_satisfies_spec;
       [exact (mct_wf b Wb) | apply dest_text_ok_wf; assumption ..].
 Qed.
